@@ -68,8 +68,19 @@ def match_known(prop, rec, known):
         if k.get("property") != prop or k.get("obligation") != rec["name"]:
             continue
         cm = k.get("cfg_match", {})
-        if all(rec["cfg"].get(a) == b for a, b in cm.items()):
-            return k
+
+        def ok(a, b):
+            v = rec["cfg"].get(a)
+            if isinstance(b, dict) and "in" in b:
+                return v in b["in"]
+            return v == b
+        if not all(ok(a, b) for a, b in cm.items()):
+            continue
+        # optional failure signature: the finding only covers violations whose recorded detail contains this text
+        dm = k.get("detail_match")
+        if dm is not None and dm not in json.dumps(rec.get("violation", {}), default=str):
+            continue
+        return k
     return None
 
 
